@@ -8,7 +8,9 @@ import (
 	"fmt"
 	"math/big"
 	"reflect"
+	"runtime"
 	"testing"
+	"time"
 	"unsafe"
 
 	"github.com/gcash/bchutil/hdkeychain"
@@ -134,6 +136,7 @@ func evalC15(c c15Case, o *Obs) error {
 	}
 	pick := func(a int) int { return ((a % len(pool)) + len(pool)) % len(pool) }
 	interesting := false
+	wantGC := false
 	var guards []c15Guarded
 	for step, op := range c.Ops {
 		if len(pool) == 0 && op.Op != "newmaster" {
@@ -275,6 +278,16 @@ func evalC15(c c15Case, o *Obs) error {
 			keyData = keyW
 			guards = append(guards, c15Guarded{buf: big, windows: off, idx: len(pool)})
 			k := hdkeychain.NewExtendedKey(ver, keyData, chain, fp, src.Depth, src.ChildNum, src.Priv != nil)
+			if op.I&2 != 0 {
+				// another key object over the same caller buffers is made, used and forgotten (never zeroed): when the
+				// collector takes it, the buffers - and the key above that lives in them - stay as they are
+				func() {
+					tmp := hdkeychain.NewExtendedKey(ver, keyData, chain, fp, src.Depth, src.ChildNum, src.Priv != nil)
+					_ = tmp.String()
+				}()
+				wantGC = true
+				o.Class("C15:forgotten-key-over-the-same-buffers")
+			}
 			cp := *src
 			if fixNet >= 0 {
 				k.SetNet(nets[fixNet].Params)
@@ -439,6 +452,12 @@ func evalC15(c c15Case, o *Obs) error {
 			if err := g.check(when); err != nil {
 				return err
 			}
+		}
+	}
+	if wantGC {
+		for i := 0; i < 2; i++ {
+			runtime.GC()
+			time.Sleep(time.Millisecond) // finalizers, if there were any, run on their own goroutine
 		}
 	}
 	for i, e := range pool {
